@@ -1266,6 +1266,13 @@ mod handle_cache_helpers {
             )
             .await;
 
+        // A page with a nonce must never be served from the server cache. The `nonce`
+        // extension takes care of that, but an extension later on the `!> ` line (e.g. `cache`)
+        // can undo it.
+        if resp.headers().contains_key("csp-nonce") {
+            server_cache = comprash::ServerCachePreference::None;
+        }
+
         let extension = match Path::new(request.uri().path())
             .extension()
             .and_then(std::ffi::OsStr::to_str)
